@@ -52,3 +52,9 @@ pub(crate) const PROTOCOL_IDENT: StreamProtocol = StreamProtocol::new("/rendezvo
 
 pub mod client;
 pub mod server;
+
+/// Verification hooks (add-only, `--cfg libp2p_verif`).
+#[cfg(libp2p_verif)]
+pub mod verif {
+    pub use crate::server::verif::*;
+}
